@@ -15,3 +15,9 @@ owns = owner("C15")
 
 def specs():
     return [c() for c in api.SPECS] + [c() for c in api_stages.SPECS]
+
+
+def bounded(tier, seed, pr):
+    from pyvc.boundedrun import run_bounded
+
+    return [run_bounded(pr, "b_api.py", "native_scenarios_dryrun", args={"groups": ['dryrun']})]
